@@ -10,8 +10,13 @@ use markdown_it::plugins::cmark;
 #[derive(Clone, Debug)]
 pub enum Op { Add(usize), Remove(usize), Parse(String) }
 
-pub const NRULES: usize = 8;
-pub const RULE_NAMES: [&str; NRULES] = ["block@", "inline-x", "inline-(", "inline-é", "inline-+", "core-stamp", "shipped-escape", "shipped-hr"];
+pub const NRULES: usize = 16;
+pub const RULE_NAMES: [&str; NRULES] = ["block@", "inline-x", "inline-(", "inline-é", "inline-+", "core-stamp", "shipped-escape", "shipped-hr",
+    // plugin-level: the documented `add` functions of the generics and of the shipped plugins
+    "code_pair<%,tokenize>", "code_pair<$,verbatim>", "strikethrough", "emph_pair<~,1>", "emph_pair<^,1>", "html", "emph_pair<*,3>", "code_pair<~,verbatim>"];
+use crate::cfg::Gen;
+use markdown_it::generics::inline::{code_pair, emph_pair};
+use markdown_it::Node;
 
 pub fn apply(md: &mut MarkdownIt, op: &Op) -> Option<String> {
     match op {
@@ -23,7 +28,15 @@ pub fn apply(md: &mut MarkdownIt, op: &Op) -> Option<String> {
             4 => { md.inline.add_rule::<PairPlus>(); }
             5 => { md.add_rule::<StampRule>(); }
             6 => { md.inline.add_rule::<cmark::inline::escape::EscapeScanner>(); }
-            _ => { md.block.add_rule::<cmark::block::hr::HrScanner>(); }
+            7 => { md.block.add_rule::<cmark::block::hr::HrScanner>(); }
+            8 => code_pair::add_with::<'%', true>(md, |_| Node::new(Gen("pct"))),
+            9 => code_pair::add_with::<'$', false>(md, |_| Node::new(Gen("dollar"))),
+            10 => markdown_it::plugins::extra::add(md),
+            11 => emph_pair::add_with::<'~', 1, true>(md, || Node::new(Gen("sub"))),
+            12 => emph_pair::add_with::<'^', 1, true>(md, || Node::new(Gen("sup"))),
+            13 => markdown_it::plugins::html::add(md),
+            14 => emph_pair::add_with::<'*', 3, true>(md, || Node::new(Gen("em3"))),
+            _ => code_pair::add_with::<'~', false>(md, |_| Node::new(Gen("tilde"))),
         } None }
         Op::Remove(k) => { match k {
             0 => md.block.remove_rule::<AtRuleB>(),
@@ -33,7 +46,14 @@ pub fn apply(md: &mut MarkdownIt, op: &Op) -> Option<String> {
             4 => md.inline.remove_rule::<PairPlus>(),
             5 => md.remove_rule::<StampRule>(),
             6 => md.inline.remove_rule::<cmark::inline::escape::EscapeScanner>(),
-            _ => md.block.remove_rule::<cmark::block::hr::HrScanner>(),
+            7 => md.block.remove_rule::<cmark::block::hr::HrScanner>(),
+            8 => md.inline.remove_rule::<code_pair::CodePairScanner<'%', true>>(),
+            9 => md.inline.remove_rule::<code_pair::CodePairScanner<'$', false>>(),
+            10 | 11 => md.inline.remove_rule::<emph_pair::EmphPairScanner<'~', true>>(),
+            12 => md.inline.remove_rule::<emph_pair::EmphPairScanner<'^', true>>(),
+            13 => { md.inline.remove_rule::<markdown_it::plugins::html::html_inline::HtmlInlineScanner>(); md.block.remove_rule::<markdown_it::plugins::html::html_block::HtmlBlockScanner>() }
+            14 => md.inline.remove_rule::<code_pair::CodePairScanner<'`', false>>(),
+            _ => md.inline.remove_rule::<code_pair::CodePairScanner<'~', false>>(),
         } None }
         Op::Parse(d) => { let t = md.parse(d); Some(format!("{} || {}", t.render(), dump(&t, false))) }
     }
@@ -46,7 +66,8 @@ pub fn fresh() -> MarkdownIt {
 }
 
 pub fn probe_doc(rng: &mut Rng) -> String {
-    let parts = ["xx", "((", "éé", "++", "@@@", "\\*", "***", "a xx b", "x", "é(", "word", "- - -", "*e*", "`c`", "a+b", "x\\x"];
+    let parts = ["xx", "((", "éé", "++", "@@@", "\\*", "***", "a xx b", "x", "é(", "word", "- - -", "*e*", "`c`", "a+b", "x\\x",
+        "%p%", "%% q %%", "$m$", "~~s~~", "H~2~O", "~t~", "x^2^", "<b>h</b>", "<div>\nd\n</div>", "***3***", "`` c2 ``", "%*e*%", "~~a ~b~ c~~"];
     let n = rng.range(1, 6);
     let mut s = String::new();
     for i in 0..n { if i > 0 { s.push_str(*rng.pick(&[" ", "\n", "\n\n"])); } s.push_str(*rng.pick(&parts)); }
@@ -59,7 +80,7 @@ pub fn gen_history(rng: &mut Rng) -> Vec<Op> {
     for _ in 0..n {
         v.push(match rng.below(5) { 0 | 1 => Op::Add(rng.below(NRULES)), 2 => Op::Remove(rng.below(NRULES)), _ => Op::Parse(probe_doc(rng)) });
     }
-    v.push(Op::Parse(probe_doc(rng) + "\n\nxx (( éé ++ \\* \n\n@@@\n\n***"));
+    v.push(Op::Parse(probe_doc(rng) + "\n\nxx (( éé ++ \\* %p% $m$ ~~s~~ H~2~O x^2^ <b>h</b> ***3*** `c`\n\n@@@\n\n***\n\n<div>\nd\n</div>"));
     v
 }
 
@@ -72,6 +93,9 @@ pub fn run(n: usize, rng: &mut Rng, rep: &mut Report) {
         vec![Op::Parse("a".into()), Op::Remove(6), Op::Parse("\\*".into())],
         vec![Op::Parse("a".into()), Op::Add(1), Op::Parse("a xx b".into())],
         vec![Op::Parse("a".into()), Op::Remove(7), Op::Parse("- - -".into())],
+        vec![Op::Parse("`c`".into()), Op::Add(8), Op::Parse("%p%".into())],
+        vec![Op::Add(10), Op::Parse("~~s~~".into()), Op::Add(11), Op::Parse("H~2~O".into())],
+        vec![Op::Add(13), Op::Parse("<b>h</b>".into()), Op::Remove(13), Op::Parse("<b>h</b>".into())],
     ];
     for i in 0..n + corpus.len() {
         let h = if i < corpus.len() { corpus[i].clone() } else { gen_history(rng) };
